@@ -65,6 +65,7 @@ class SCheck(Check):
             case = self.gen_case(r, i, tier)
             if case is None:
                 continue
+            gen.canon_case(case)
             plans = self.gen_plans(r, case, k)
             yield {"case": case, "plans": plans, "case_id": i}
 
